@@ -515,5 +515,46 @@ pub fn cmd_scan(args: &[String]) {
             }
         }
     }
+    // word level: all prefixes of length 7 over a boundary-value alphabet, then every byte,
+    // on the word-at-a-time backend (and, after a 32-byte in-class run, as the tail of the
+    // selected provider)
+    let alpha: Vec<u8> = if thorough { vec![0x09, 0x1f, 0x20, 0x21, 0x7f, 0x80, 0xa0, 0xff] } else { vec![0x09, 0x1f, 0x20, 0x7f, 0x80, 0xff] };
+    let plen = 7usize;
+    let total = alpha.len().pow(plen as u32);
+    for &(backend, lead) in &[(1u8, 0usize), (0u8, 32usize)] {
+        if httparse::verif::scan(backend, 0, b"abc").is_none() { continue; }
+        if lead > 0 && !thorough { continue; }
+        for cls in 0u8..3 {
+            for code in 0..total {
+                let mut pre = [0u8; 7];
+                let mut c = code;
+                for i in 0..plen { pre[i] = alpha[c % alpha.len()]; c /= alpha.len(); }
+                let n = lead + plen + 1;
+                for i in 0..lead { data[i] = b'a'; }
+                data[lead..lead + plen].copy_from_slice(&pre);
+                let mut stops = [0usize; 256];
+                for b in 0..256usize {
+                    data[lead + plen] = b as u8;
+                    let buf = arena.place(&data[..n], Place::End);
+                    stops[b] = httparse::verif::scan(backend, cls, buf).unwrap();
+                    calls += 1;
+                }
+                let mut runs = String::new();
+                let mut i = 0;
+                while i < 256 {
+                    let mut j = i;
+                    while j < 256 && stops[j] == stops[i] { j += 1; }
+                    if !runs.is_empty() { runs.push(','); }
+                    runs.push_str(&format!("[{},{}]", stops[i], j - i));
+                    i = j;
+                }
+                let mut prefix: Vec<String> = (0..lead).map(|_| "97".to_string()).collect();
+                prefix.extend(pre.iter().map(|x| x.to_string()));
+                let w = &mut ws[(events as usize) % shards];
+                writeln!(w, "{{\"ev\":\"scanw\",\"backend\":{},\"cls\":{},\"pre\":[{}],\"runs\":[{}]}}", backend, cls, prefix.join(","), runs).unwrap();
+                events += 1;
+            }
+        }
+    }
     println!("{{\"events\":{},\"calls\":{},\"backends\":{:?},\"provider\":\"{}\"}}", events, calls, backends_seen, httparse::verif::provider());
 }
